@@ -39,6 +39,7 @@ type Fact struct {
 	T   time.Time
 	In  *Inner
 	Any interface{} // always nil or a *Inner: the interface-typed-field branches of model/GoDataAccessLayer.go
+	Items []*Inner // slice of pointers to structs: four-component paths F.Items[i].X
 	Arr  []int64
 	FArr []float64
 	SArr []string
@@ -73,6 +74,11 @@ func (f *Fact) clone() *Fact {
 	if a, ok := f.Any.(*Inner); ok && a != nil {
 		in := *a
 		c.Any = &in
+	}
+	c.Items = nil
+	for _, it := range f.Items {
+		in := *it
+		c.Items = append(c.Items, &in)
 	}
 	c.Arr = append([]int64(nil), f.Arr...)
 	c.FArr = append([]float64(nil), f.FArr...)
@@ -130,6 +136,11 @@ func (f *Fact) gallina() string {
 	} else {
 		add("Any", "(FPtr None)")
 	}
+	var its []string
+	for _, it := range f.Items {
+		its = append(its, it.gallina())
+	}
+	add("Items", "(FSlice "+gList(its)+")")
 	var xs []string
 	for _, x := range f.Arr {
 		xs = append(xs, gFV(fmt.Sprintf("(VInt I64 %s)", gZ(x))))
@@ -181,6 +192,10 @@ func (f *Fact) dump() string {
 		in += fmt.Sprintf(" Any=%+v", *a)
 	}
 	c.Any = nil
+	for i, it := range f.Items {
+		in += fmt.Sprintf(" Items[%d]=%+v", i, *it)
+	}
+	c.Items = nil
 	var mk []string
 	for k, v := range f.M {
 		mk = append(mk, fmt.Sprintf("%s=%d", k, v))
@@ -221,6 +236,7 @@ func genFact(p *prng) *Fact {
 	if p.chance(1, 12) {
 		f.In = nil
 	}
+	f.Items = []*Inner{{X: f.I64 - 1, Y: 1.5, S: "it0", B: f.B}, {X: int64(f.U8), Y: -0.5, S: "", B: !f.B}}
 	if !(f.U8 == 3 && f.U16 >= 2) { // derived, not drawn (the PRNG stream of older replays is unchanged); nil interface 1 time in 8
 		f.Any = &Inner{X: f.I64 + 1, Y: 0.25, S: "any", B: !f.B}
 	}
@@ -247,6 +263,7 @@ type factJSON struct {
 	T    time.Time
 	In   *innerJSON
 	Any  *innerJSON `json:",omitempty"`
+	Items []*innerJSON `json:",omitempty"`
 	Arr  []int64
 	FArr []uint64
 	SArr []string
@@ -269,6 +286,9 @@ func (f *Fact) MarshalJSON() ([]byte, error) {
 	if a, ok := f.Any.(*Inner); ok && a != nil {
 		j.Any = &innerJSON{X: a.X, Y: math.Float64bits(a.Y), S: a.S, B: a.B}
 	}
+	for _, it := range f.Items {
+		j.Items = append(j.Items, &innerJSON{X: it.X, Y: math.Float64bits(it.Y), S: it.S, B: it.B})
+	}
 	for _, x := range f.FArr {
 		j.FArr = append(j.FArr, math.Float64bits(x))
 	}
@@ -287,6 +307,9 @@ func (f *Fact) UnmarshalJSON(b []byte) error {
 	}
 	if j.Any != nil {
 		f.Any = &Inner{X: j.Any.X, Y: math.Float64frombits(j.Any.Y), S: j.Any.S, B: j.Any.B}
+	}
+	for _, it := range j.Items {
+		f.Items = append(f.Items, &Inner{X: it.X, Y: math.Float64frombits(it.Y), S: it.S, B: it.B})
 	}
 	for _, x := range j.FArr {
 		f.FArr = append(f.FArr, math.Float64frombits(x))
